@@ -452,3 +452,33 @@ def deep_roots(P, term, inline=True, depth=6, _seen=None):
                     sub = P.subst(sub, r[2], list(r[3]))
                 out += deep_roots(P, sub, inline, depth - 1)
     return out
+
+
+def sink_delegation(ctx, tag, types):
+    """Sink wrappers: each of poll_ready / poll_flush / poll_close of the wrapper calls, exactly once, the operation of the same name on the sink it wraps
+    (a field of self), and returns that call's result (errors may be mapped).  Wrappers that implement an operation without an inner sink are skipped
+    (e.g. an unbounded queue needs no flushing)."""
+    F, P, R = ctx.F, ctx.P, ctx.run
+    n = 0
+    for ty in types:
+        for meth in ('poll_ready', 'poll_flush', 'poll_close'):
+            try:
+                m = F.trait_method('Sink', ty, meth)
+            except CannotDecide:
+                continue
+            inner = [(bb, t) for bb, t in m.calls() if callee_is(t, 'Sink::poll_ready', 'Sink::poll_flush', 'Sink::poll_close', 'Sink::start_send')]
+            if not inner:
+                continue
+            n += 1
+            names_ = sorted({strip_generics(t['callee']).split('::')[-1] for _, t in inner})
+            ok = len(inner) == 1 and names_ == [meth]
+            if ok:
+                bb, t = inner[0]
+                recv = P.root(P.operand(m, t['args'][0], at=bb))
+                ok = bool(recv) and all(x == ('param', m.id, 1) and P.fpath(p) for x, p in recv)
+                rr = deep_roots(P, P._local_whole(m, 0))
+                ok = ok and bool(rr) and all(P.unbound(x) == ('call', m.id, bb) for x, _ in rr)
+            R.ob(tag, (ty.split('::')[-1], meth, 'delegates to the same operation of the wrapped sink'), ok,
+                 '%s of the wrapper performs exactly %s on the sink it wraps and returns its outcome (closing really closes, flushing really flushes)' % (meth, meth),
+                 [m.loc(t) for _, t in inner], 'inner operations called: %s' % names_)
+    return n
